@@ -213,6 +213,8 @@ def run(ctx):
                 continue
             if ctx.quick and pn == 3 and (idx // ctx.nshards) % 12 != ctx.seed % 12:
                 continue  # quick: 3-node patterns are sampled (1 in 12, rotated by the seed)
+            if not ctx.quick and hn == 4 and pn == 3 and (idx // ctx.nshards) % 6 != ctx.seed % 6:
+                continue  # thorough: 4-node hosts x 3-node patterns (3.5M pairs) are sampled 1 in 6, rotated by the seed
             # thorough: the 4-node hosts are many; the full setting sweep runs on a third of them
             light = (not ctx.quick and hn == 4 and idx % 3 != 0) or (ctx.quick and idx % 4 != 0)
             H, _ = WG.scramble(WG.to_nx(hr), rng)
@@ -221,7 +223,7 @@ def run(ctx):
     if ctx.quick:
         ctx.exhaustive["hosts<=3 nodes x patterns<=2 nodes (full alphabet, classes up to isomorphism)"] = True
     else:
-        ctx.exhaustive[space] = True
+        ctx.exhaustive["hosts<=4 nodes x patterns<=2 nodes and hosts<=3 x patterns<=3 (full alphabet, classes up to isomorphism)"] = True
     if not ctx.quick:
         red5 = WG.classes(5, WG.RED_NODE, [1, 2], 5)
         pats_red = [r for n in range(1, 4) for r in WG.classes(n, WG.RED_NODE, [1, 2])]
